@@ -20,6 +20,7 @@ ASSUMPTIONS = ['leaf observers (role table) are the ends of a pipeline and may a
 CONTROLS = [
     'E1|<verif_controls::ConstFinishedObserver<O> as Observer>::is_finished',
     'E1|<verif_controls::HalfFinishedObserver<O> as Observer>::is_finished',
+    'E1|<verif_controls::AlwaysFinishedObserver<O> as Observer>::is_finished',
     'E2|<verif_controls::EagerIter<I> as Observable>::actual_subscribe',
     'E2|verif_controls::eager_tick',
     'E4|<verif_controls::CompleteInNext<O> as Observer>::next',
@@ -98,7 +99,10 @@ def e1(cx):
         bad = [(nid, st) for nid, st in ret_states(g, reached) if st not in ('down', 'empty_true')]
         if bad:
             nid, st = bad[0]
-            msg = {'none': 'a path returns without asking the downstream observer',
+            rets0 = [x['rhs'] for x in g.nodes if x['kind'] == 'assign' and not x['ctx'] and x['lhs'][0] == 'local' and x['lhs'][1] == 0]
+            rets0 += [x['value'] for x in g.nodes if x['kind'] == 'call' and not x['ctx'] and x.get('dest') and x['dest'][0] == 'local' and x['dest'][1] == 0]
+            slot_only = bool(rets0) and all(strip(r)[0] == 'call' and strip(r)[1] == 'std::option::Option::is_none' for r in rets0)
+            msg = {'none': 'answers only whether its own slot is empty and never asks the downstream observer: a downstream that finished early (take, first, ...) is not reported upstream' if slot_only else 'a path returns without asking the downstream observer',
                    'const_false': 'returns the constant false: producers upstream of this observer never learn that the stream ended',
                    'const_true': 'returns the constant true on a path where the downstream slot is not known to be empty',
                    'empty': 'empty-slot path does not answer true',
